@@ -11,8 +11,11 @@ Inductive case : Type :=
 | CAcc (name : string) (raw got : N)
 (* register type, raw value, what Fields() returned: name, offset, size, value *)
 | CFields (reg : string) (raw : N) (fs : list (string * N * N * N))
-(* image length, non-zero bytes (offset, value), what ReadTXTRegisters returned: (ID, raw value) *)
-| CRead (len : N) (bytes : list (N * N)) (regs : list (string * N))
+(* image length (ANY length, also shorter than the register area), non-zero bytes (offset, value),
+   what ReadTXTRegisters returned: the collection (ID, raw value) in the order returned, and the
+   entries of the MultiError in their order: (ID, 0 = io.EOF | 1 = io.ErrUnexpectedEOF | 2 = anything
+   else); [] for a nil error *)
+| CRead (len : N) (bytes : list (N * N)) (regs : list (string * N)) (errs : list (string * N))
 (* a session on one process: Fields() calls interleaved with writes into the byte slices handed
    out so far.  Compact literals: byte strings are written as one number, little endian, with
    a 1 appended as most significant byte ([enc_bytes]: length and content); per operation the
@@ -36,17 +39,6 @@ Definition enc_bytes (l : list N) : N := le_value (l ++ [1]).
 Definition enc_ofield (f : ofield) : N * N * N * nat :=
   let '(_, o, s, v, a) := f in (o, s, enc_bytes v, a).
 
-(** TXT configuration space layout: register ID, offset, size in bytes
-    (constants *RegisterOffset in pkg/registers/txt_*.go and the Go type read). *)
-Open Scope string_scope.
-Definition txt_layout : list (string * nat * nat) := [
-  ("ACM_POLICY_STATUS", 888, 8); ("ACM_STATUS", 808, 4); ("TXT.DPR", 816, 4); ("TXT.ERRORCODE", 48, 4);
-  ("TXT.PUBLIC.KEY", 1024, 32); ("TXT.STS", 0, 8); ("TXT.ESTS", 8, 1); ("TXT.SPAD", 160, 8);
-  ("TXT.VER.FSBIF", 256, 4); ("TXT.VER.EMIF", 512, 4); ("TXT.DIDVID", 272, 8); ("TXT.SINIT.BASE", 624, 4);
-  ("TXT.SINIT.SIZE", 632, 4); ("TXT.MLE.JOIN", 656, 4); ("TXT.HEAP.BASE", 768, 4); ("TXT.HEAP.SIZE", 776, 4)
-]%nat.
-Close Scope string_scope.
-
 Fixpoint byte_at (bytes : list (N * N)) (i : N) : N :=
   match bytes with
   | [] => 0
@@ -60,11 +52,28 @@ Fixpoint le_sparse (bytes : list (N * N)) (off : N) (n : nat) : N :=
 Definition read_sparse (len : N) (bytes : list (N * N)) (off n : nat) : option N :=
   if N.of_nat (off + n) <=? len then Some (le_sparse bytes (N.of_nat off) n) else None.
 
-Fixpoint layout_find (id : string) (l : list (string * nat * nat)) : option (nat * nat) :=
-  match l with
-  | [] => None
-  | (i, o, n) :: t => if String.eqb i id then Some (o, n) else layout_find id t
+(** The image a [CRead] case denotes: [len] bytes, zero except at the listed offsets. *)
+Definition expand (len : nat) (bytes : list (N * N)) : list N :=
+  map (fun i => byte_at bytes (N.of_nat i)) (seq 0 len).
+
+(** [read_regs] evaluated on the sparse description without building the image
+    ([read_regs_sparse_expand] in Proofs/Registers.v: it IS [read_regs] on [expand]). *)
+Definition err_sparse (len : N) (off : nat) : read_err :=
+  if len <=? N.of_nat off then ErrEOF else ErrUnexpectedEOF.
+Fixpoint read_regs_sparse (layout : list (string * nat * nat)) (len : N) (bytes : list (N * N))
+  : list (string * N) * list (string * read_err) :=
+  match layout with
+  | [] => ([], [])
+  | (id, off, n) :: t =>
+      let r := read_regs_sparse t len bytes in
+      match read_sparse len bytes off n with
+      | Some v => ((id, v) :: fst r, snd r)
+      | None => (fst r, (id, err_sparse len off) :: snd r)
+      end
   end.
+
+Definition err_code (e : read_err) : N := match e with ErrEOF => 0 | ErrUnexpectedEOF => 1 end.
+Definition reg_eqb (a b : string * N) : bool := String.eqb (fst a) (fst b) && N.eqb (snd a) (snd b).
 
 Fixpoint fields4_eqb (a b : list (string * N * N * N)) : bool :=
   match a, b with
@@ -91,15 +100,10 @@ Definition check (accs : list accessor) (tabs : list table) (c : case) : bool :=
       | Some t => fields4_eqb (calc_fields raw (t_bits t) (t_fields t)) fs
       | None => false
       end
-  | CRead len bytes regs =>
-      Nat.eqb (List.length regs) (List.length txt_layout) &&
-      forallb (fun p => match layout_find (fst p) txt_layout with
-                        | Some (o, n) => match read_sparse len bytes o n with
-                                         | Some v => N.eqb v (snd p)
-                                         | None => false
-                                         end
-                        | None => false
-                        end) regs
+  | CRead len bytes regs errs =>
+      let r := read_regs_sparse txt_layout len bytes in
+      list_eqb reg_eqb (fst r) regs &&
+      list_eqb reg_eqb (map (fun p => (fst p, err_code (snd p))) (snd r)) errs
   | CSession ops obs fin =>
       match run tabs empty_state (map sop_op ops) with
       | Some (o, s) => list_eqb (list_eqb cfield_eqb) (map (map enc_ofield) o) obs
